@@ -197,6 +197,9 @@ func (x rtype) eq(_ types.Type, y interface{}) bool {
 // In a well-typed program, the dynamic types of x and y are
 // guaranteed equal.
 func equals(t types.Type, x, y value) bool {
+	if isSymOrSymstr(x) || isSymOrSymstr(y) {
+		return decide(valEqTerm(x, y))
+	}
 	switch x := x.(type) {
 	case bool:
 		return x == y.(bool)
@@ -521,4 +524,12 @@ func (it *hashmapIter) next() tuple {
 		}
 		it.cur = it.iter.Value().Interface().(*entry)
 	}
+}
+
+func isSymOrSymstr(v value) bool {
+	switch v.(type) {
+	case symv, symstr, symm:
+		return true
+	}
+	return false
 }
